@@ -729,12 +729,58 @@ class Effects:
             return {"AttributeError"}
         if not isinstance(base, ast.Name):
             return set()
+        und = self._undeclared_attr(n, f)
+        if und:
+            return und
         info = self._optional_names(f).get(base.id)
         if info is None:
             return set()
         if self._name_guarded(base.id, n, f) or self._flow_guarded(base.id, n, f):
             return set()
         self._note(f, n, ["AttributeError"], f"`{base.id}` can be None here ({info})")
+        return {"AttributeError"}
+
+    def _undeclared_attr(self, n: ast.Attribute, f: FuncInfo) -> set[str]:
+        """AttributeError for `p.attr` where p is a parameter annotated with the base class
+        `Message` and no class on Message's MRO defines `attr` (and none has __getattr__): the
+        attribute exists on typed subclasses only - an UndefinedMessage (a command without a python
+        class) has it only when the AVP was received.  A test that mentions p (hasattr, isinstance)
+        counts as a guard."""
+        base = n.value
+        if self.profile == "faults" or base.id in ("self", "cls"):
+            return set()
+        arg = [a for a in f.node.args.args + f.node.args.kwonlyargs if a.arg == base.id]
+        if not arg or arg[0].annotation is None:
+            return set()
+        from .typesx import ann_type
+        try:
+            t = ann_type(self.model, f.module, arg[0].annotation)
+        except Exception:
+            return set()
+        if not isinstance(t, ClassInfo) or t.name != "Message" or "message" not in t.module.name:
+            return set()
+        cache = self.__dict__.setdefault("_declattrs", {})
+        if t not in cache:
+            names: set[str] = set()
+            dyn = False
+            for c in self.model.mro(t):
+                if not hasattr(c, "methods"):
+                    continue
+                names |= set(c.methods) | set(c.setters) | set(c.class_assigns) | set(c.annotations)
+                dyn = dyn or "__getattr__" in c.methods
+                for g in c.all_funcs:
+                    for x in ast.walk(g.node):
+                        if isinstance(x, ast.Attribute) and isinstance(x.ctx, ast.Store) \
+                                and isinstance(x.value, ast.Name) and x.value.id == "self":
+                            names.add(x.attr)
+            cache[t] = (names, dyn)
+        names, dyn = cache[t]
+        if dyn or n.attr in names or n.attr.startswith("__"):
+            return set()
+        if self._name_guarded(base.id, n, f):
+            return set()
+        self._note(f, n, ["AttributeError"], f"`{ast.unparse(n)}`: class {t.name} defines no `{n.attr}` "
+                   f"(a message of a command without a python class has it only when the AVP was sent)")
         return {"AttributeError"}
 
     def _optional_names(self, f: FuncInfo) -> dict:
